@@ -21,7 +21,9 @@ RULE = ('Clenshaw derivative tables: coefficient vectors of length 1..12 (dense 
         'm = 1..6 (m = 1 with more than three terms exercises the -2/5 alpha_3 correction); closed forms: orders n = 0..30 for '
         'Hermite He/H, Laguerre (several alpha), Jacobi (several alpha, beta), Legendre, Chebyshev 1-4, sequence forms with gapped '
         'order lists; Zernike: all valid (n, m) with n <= 10, norm on/off, r and t arrays; sag/slope: Qbfs, Qcon (length 1..10) and '
-        '2D-Q with cosine-only / sine-only / mixed / empty / unequal content; points strictly inside the domain; exact runs use '
+        '2D-Q with cosine-only / sine-only / mixed / empty / unequal content, preceded by SYSTEMATIC one-hot content (every position '
+        'of every length, each side, each m); SYSTEMATIC dtype family: every derivative entry point x coordinate dtype (int64 .. int8, '
+        'uint8, uint16, bool, float32) x orders 0, 1, 2, 3, 4, 6; points strictly inside the domain; exact runs use '
         'fractions.Fraction object arrays through prysm\'s own code. A case is non-trivial unless all coefficients vanish; '
         'distinct = distinct (item, input) tuples')
 ASSUMPTIONS = ['the value routines (jacobi, hermite_*, laguerre, Qbfs, Qcon, Q2d, zernike_nm) are polynomials in their argument: the '
@@ -522,6 +524,8 @@ def alias_cases(rng, count):
 # argument forms: coordinate dtypes / ranks / scalars, caller-supplied `alphas` buffers
 # ------------------------------------------------------------------------------------------------
 FORMS = ['i64', 'i32', 'f32', '0d', '2d', '3d', 'f64-strided']
+NARROW_FORMS = ('i16', 'i8', 'u8', 'u16', 'bool')
+DTYPE_FORMS = ['i64', 'i32', 'i16', 'i8', 'u8', 'u16', 'bool', 'f32']
 SCALAR_FORMS = ['pyfloat', 'pyint', 'npfloat']          # only for the routines whose docstring promises scalars (Hermite)
 FORM_ROUTINES = ['fam', 'famseq', 'jder', 'qbfsder', 'q2dder', 'zzqbfs', 'zzqcon', 'zzq2d', 'zern', 'zernseq']
 
@@ -529,10 +533,14 @@ FORM_ROUTINES = ['fam', 'famseq', 'jder', 'qbfsder', 'q2dder', 'zzqbfs', 'zzqcon
 def form_points(case):
     """float64 reference coordinates (1-D) for the routine of the case; integer-valued when the form needs it"""
     rt, form = case['routine'], case['form']
-    integral = form in ('i64', 'i32', 'pyint')
+    integral = form in ('i64', 'i32', 'pyint') + NARROW_FORMS
+    nonneg = form in ('u8', 'u16', 'bool')
     kind = case.get('kind', 'jac')
     if rt in ('fam', 'famseq', 'jder'):
-        if integral:
+        if integral and nonneg:
+            # unsigned / boolean grids: only the non-negative part of the domain is representable
+            pts = [0, 1, 1] if form == 'bool' else {'lag': [0, 1, 3], 'he': [0, 1, 2], 'h': [0, 1, 2]}.get(kind, [0, 1, 1])
+        elif integral:
             pts = {'lag': [0, 1, 2], 'he': [-1, 0, 2], 'h': [-1, 0, 2]}.get(kind, [-1, 0, 1])
         else:
             pts = case['pts']
@@ -551,6 +559,8 @@ def as_form(v, form):
         return v.astype(np.int32)
     if form == 'f32':
         return v.astype(np.float32)
+    if form in NARROW_FORMS:
+        return v.astype({'i16': np.int16, 'i8': np.int8, 'u8': np.uint8, 'u16': np.uint16, 'bool': bool}[form])
     if form == '0d':
         return np.array(v.ravel()[0])
     if form == '2d':
@@ -619,21 +629,9 @@ SEQ_KINDS = [('he', ()), ('h', ()), ('lag', (0.5,)), ('jac', (0.5, 1.5)), ('lege
 SEQ_ARGS = (['jder.s', 'qbfsder.cs', 'q2dder.cns', 'zzqbfs.coefs', 'zzqcon.coefs', 'zzq2d.cm0', 'zzq2d.ams', 'zzq2d.bms',
              'zzq2d.ams-inner', 'zzq2d.bms-inner', 'zzq2d.all', 'zernseq.nms', 'zernseq.rows']
             + [f'derseq.ns/{k}' for k, _ in SEQ_KINDS])
-# cheby.py is not this check's to repair: np.asarray(ns) on a one-shot iterable (see notes/findings_C09.txt)
-SEQ_KNOWN = {('derseq.ns/cheby2', 'TypeError'): 'cheby-der-seq-one-shot-ns', ('derseq.ns/cheby4', 'TypeError'): 'cheby-der-seq-one-shot-ns'}
-
-
-def _cheby_one_shot_witness():
-    P, qp, J = _impl()
-    try:
-        P.cheby2_der_seq(iter([0, 1, 2]), np.linspace(-0.5, 0.5, 3))
-        P.cheby4_der_seq((n for n in [0, 1, 2]), np.linspace(-0.5, 0.5, 3))
-    except TypeError:
-        return True
-    return False
-
-
-KNOWN = {'cheby-der-seq-one-shot-ns': {'witness': _cheby_one_shot_witness}}
+# no known findings: cheby2_der_seq / cheby4_der_seq on one-shot iterables was repaired in cheby.py by its owner (29efa78, listed
+# under C08); unsigned coordinate arrays are repaired in the derivative routines (round 5)
+KNOWN = {}
 
 
 def seq_call(case, P, qp, J):
@@ -754,8 +752,10 @@ def pred_forms(case):
     form = case['form']
     v = form_points(case)
     tv = np.array(case['tpts'], dtype=float)[:v.size]
-    if form in ('i64', 'i32', 'pyint'):
+    if form in ('i64', 'i32', 'pyint') + NARROW_FORMS:
         tv = np.round(tv)
+    if form in ('u8', 'u16', 'bool'):
+        tv = np.clip(tv, 0, 1 if form == 'bool' else 6)
     coords = [v] if ncoord == 1 else [v, tv]
     exp = np.array(fn(*[ref_form(c, form) for c in coords]), dtype=float)
     got = np.array(fn(*[as_form(c, form) for c in coords]), dtype=float)
@@ -795,6 +795,32 @@ def form_cases(rng, count, thorough=False):
                 'upts': [float(v) for v in rng.uniform(0.05, 0.95, 3)], 'tpts': [float(v) for v in rng.uniform(0, 6, 3)]}
         out.append(case)
         i += 1
+    return out
+
+
+def dtype_cases(rng, thorough=False):
+    """EVERY derivative entry point x EVERY coordinate dtype (int64 .. int8, unsigned, bool, float32) x low orders (0, 1, 2, ... :
+    the special-cased branches) - systematic, not sampled: the result must be the float64 result on the same points"""
+    kinds = [('he', ()), ('h', ()), ('lag', (0.5,)), ('lag', (0.0,)), ('jac', (0.5, 1.5)), ('jac', (-0.5, -0.5)), ('jac', (0.0, 0.0)),
+             ('legendre', ()), ('cheby1', ()), ('cheby2', ()), ('cheby3', ()), ('cheby4', ())]
+    base = form_cases(rng, 1)[0]
+    out = []
+    for form in DTYPE_FORMS:
+        for kind, params in kinds:
+            for n in ((0, 1, 2, 3, 4, 6) if not thorough else range(0, 9)):
+                out.append(dict(base, routine='fam', form=form, kind=kind, params=list(params), n=n))
+            for ns in ([0, 1, 2, 3], [1], [1, 4], [2, 3, 7]):
+                out.append(dict(base, routine='famseq', form=form, kind=kind, params=list(params), ns=ns))
+        for i, rt in enumerate(['jder', 'qbfsder', 'q2dder', 'zzqbfs', 'zzqcon', 'zzq2d']):
+            for ncs in (1, 2, 4):
+                cs = [0.5 + 0.25 * k for k in range(ncs)]
+                for j in (1, 2):
+                    out.append(dict(base, routine=rt, form=form, cs=cs, cs2=cs[::-1], j=j, m=1 + (ncs + j) % 3, alpha=-0.5, beta=-0.5,
+                                    cm0_none=False))
+        for zn, zm in ((0, 0), (1, 1), (1, -1), (2, 0), (2, 2), (3, -1), (4, 0)):
+            for nrm in (False, True):
+                out.append(dict(base, routine='zern', form=form, zn=zn, zm=zm, norm=nrm))
+        out.append(dict(base, routine='zernseq', form=form, nms=[[0, 0], [1, 1], [1, -1], [2, 0]], norm=True))
     return out
 
 
@@ -1384,10 +1410,24 @@ def correspondence(ctx):
 
     # ------------------------------------------------ sag and slopes: 2D-Q
     qkinds = ['cos', 'sin', 'mixed', 'holes', 'ragged', 'm1long', 'len1']
-    for ci in range(ctx.scale(400, 5000)):
-        kind = qkinds[ci % len(qkinds)]
-        cm0, ams, bms = q2d_content(rng, kind, ctx.scale(3, 5), ctx.scale(5, 7))
-        u, t = float(rng.uniform(0.1, 0.95)), float(rng.uniform(0, 6.2))
+    # SYSTEMATIC single-term content first (one-hot radial vectors at every position of every length 1..5 / ..7, cosine-only and
+    # sine-only separately, azimuthal orders 1..4 / ..6): every (side, m, length) guard of the slope accumulation, whatever the seed
+    onehot = []
+    for m in range(1, ctx.scale(5, 7)):
+        for n in range(1, ctx.scale(6, 8)):
+            for pos in range(n):
+                v = [1.0 if i == pos else 0.0 for i in range(n)]
+                pad = [[] for _ in range(m - 1)]
+                onehot.append(('onehot-cos', [], pad + [v], pad + [[]]))
+                onehot.append(('onehot-sin', [], pad + [[]], pad + [v]))
+    for ci in range(len(onehot) + ctx.scale(400, 5000)):
+        if ci < len(onehot):
+            kind, cm0, ams, bms = onehot[ci]
+            u, t = (0.3, 0.4) if ci % 2 else (0.8, 2.0)
+        else:
+            kind = qkinds[ci % len(qkinds)]
+            cm0, ams, bms = q2d_content(rng, kind, ctx.scale(3, 5), ctx.scale(5, 7))
+            u, t = float(rng.uniform(0.1, 0.95)), float(rng.uniform(0, 6.2))
         case = {'item': 'zzq2d', 'cm0': cm0, 'ams': ams, 'bms': bms, 'u': [u], 't': [t]}
         nz = bool(cm0) or any(len(a) for a in ams) or any(len(b) for b in bms)
         ctx.case('zzq2d', case, nontrivial=nz, tag=kind + ('/m0' if cm0 else '/no-m0'))
@@ -1512,6 +1552,9 @@ def correspondence(ctx):
     for case in form_cases(rng, ctx.scale(500, 5000)):
         ctx.case('coords', case, nontrivial=True, tag=f'{case["routine"]}/{case["form"]}')
         run_pred('coords', case)
+    for case in dtype_cases(rng, ctx.thorough):
+        ctx.case('coords', case, nontrivial=True, tag=f'{case["routine"]}/{case.get("kind", "")}/{case["form"]}/dtype')
+        run_pred('coords', case)
     for case in buffer_cases(rng, ctx.scale(120, 1200)):
         ctx.case('buffer', case, nontrivial=True, tag=f'{case["routine"]}/{case["fill"]}')
         run_pred('buffer', case)
@@ -1525,12 +1568,7 @@ def correspondence(ctx):
         ctx.case('seqarg', case, nontrivial=True, tag=f'{case["routine"]}/{case["form"]}')
         ok, detail = pred_safe(case, ctx)
         if not ok:
-            key = next((k for (rt_, exn), k in SEQ_KNOWN.items() if rt_ == case['routine'] and f'raised {exn}' in detail
-                        and case['form'] not in ('list', 'tuple', 'ndarray', 'range', 'deque')), None)
-            if key:
-                ctx.filtered_known[key] += 1
-            else:
-                ctx.pred_fail('seqarg', case, detail)
+            ctx.pred_fail('seqarg', case, detail)
 
     # ------------------------------------------------ conic base surfaces and Q2d_and_der (x/raytracing/surfaces.py)
     S = _surf()
@@ -1792,10 +1830,26 @@ MANIFEST_ENTRY = {
              'off_axis_conic_sag/_der/_sigma/_sigma_der (both shift branches, for every interpretation of np.sqrt) and the Q2d_and_der '
              'assembly (up to renaming of locals). The "...Structure = true" conjuncts of the gen_* theorems are Booleans computed by the '
              'translator from the syntax tree (three-valued: a recognised wrong shape is false and fails the proof; an unrecognised '
-             'spelling is reported as untranslatable and printed as TIE-DEGRADED); Lean sees only the Boolean. COMPARED ONLY (executed, no '
-             'theorem about their own recurrences): the nine *_der_seq routines (against one-at-a-time evaluation, orders up to 25 quick / 30 '
-             'thorough), the cheby*_der constant and legendre_der delegation (instances of (2) but not translated), zernike_nm_der_seq, '
-             'compute_z_zprime_Q2d and Q2d_and_der end to end. EXECUTED INPUT FORMS: float64 / float32 / int64 / int32 / 0-d / 2-D / 3-D / '
+             'spelling is reported as untranslatable and printed as TIE-DEGRADED); Lean sees only the Boolean. (8) SEQUENCE FORMS: the '
+             'sweeps of hermite_He_der_seq, hermite_H_der_seq and jacobi_der_seq are in the model as the source runs them (explicit low '
+             'orders, then one loop carrying two polynomials; Jacobi: shifted shape, recurrence_abc of order 1 before and i-1 inside the '
+             'loop) and hermite_der_seq_correct / jacobi_der_seq_correct prove that EVERY row is the derivative of the value routine\'s '
+             'polynomial (all orders, all admissible shapes, by induction on the loop state); cheby_legendre_der_correct: for the shape the '
+             'SOURCE hands to jacobi_der (read from cheby.py / legendre.py, gen_cheby_shapes) and any normalising constant c, c * jacobi_der '
+             'is the derivative of c * P_n (cheby_legendre_der_seq_correct: same for the rows of the jacobi_der_seq sweep). TRANSLATED for these (gen_hermite_der_seq, gen_jacobi_der_seq, gen_delegations): explicit rows, '
+             'locals on entry to the loop, one iteration and the emitted row (symbolic execution of the loop body: statement order does not '
+             'matter), loop start, recurrence_abc indices and shapes; shape / normaliser shape / numerator of cheby1..4(_der)(_seq) and '
+             'legendre(_der)(_seq) (the derivative routine must use those of ITS value routine); order shift, shape, sign and zero rows of '
+             'laguerre_der_seq; the row loop of zernike_nm_der_seq. DTYPE OBLIGATIONS (Booleans from the syntax trees): '
+             'gen_float_coordinates_at_entry (the twelve routines with arithmetic of their own on the coordinates re-bind each coordinate '
+             'to np.asarray(c, dtype=np.result_type(c, 1.0)) before anything else reads it - removed as an identity before the other '
+             'recognisers run) and gen_no_coordinate_typed_fill (no full_like / full / zeros / empty typed like unconverted coordinates). '
+             'COMPARED ONLY (executed): laguerre_seq behind laguerre_der_seq, the row selection (ns[min_i], early returns) of the sequence '
+             'forms (orders up to 25 quick / 30 thorough against one-at-a-time evaluation), '
+             'compute_z_zprime_Q2d and Q2d_and_der end to end. EXECUTED INPUT FORMS: SYSTEMATIC product of every derivative entry point x '
+             'coordinate dtype int64 / int32 / int16 / int8 / uint8 / uint16 / bool / float32 x orders 0, 1, 2, 3, 4, 6 (0..8 thorough); '
+             'one-hot 2D-Q content (every position of every length 1..5, cosine-only and sine-only, m = 1..4; ..7 / ..6 thorough); '
+             'float64 / float32 / int64 / int32 / 0-d / 2-D / 3-D / '
              'strided coordinate arrays (Python and NumPy scalars where the docstring allows them), list / tuple / ndarray (int, f32, f64) '
              'coefficients evaluated twice on the same objects, zeroed and dirty caller alphas buffers, signed m, cm0=None, the boundary '
              'points r=0, u=0, u=1, x=+-1, rho=0; every sequence argument (coefficients s / cs / cns / coefs / cm0 / ams / bms and their inner lists, '
@@ -1807,7 +1861,7 @@ MANIFEST_ENTRY = {
              'propagated, locals are expanded by path-wise symbolic execution or renamed by role, conditional expressions are '
              'treated as if/else; a shape that is still not understood degrades the tie (TIE-DEGRADED), it never turns it red.'),
     'note': ('partial: the Python loops / NumPy plumbing around the translated steps are tied to the model by execution, not by proof; '
-             'the *_der_seq sweeps and cheby*_der are compared, not separately proved or translated; the structural facts are opaque '
+             'the row selection of the *_der_seq sweeps and laguerre_seq are compared only; the structural facts are opaque '
              'Booleans for Lean; exact Fraction / polynomial-object streams are skipped with a note when the implementation does not '
              'accept such objects (only failures on ordinary float inputs count); the surface theorems assume positive radicands '
              '(inside the domain); field semantics x/0 = 0 where Python raises; rounding is outside every theorem (comparisons at 1e-9 '
